@@ -14,7 +14,7 @@ CONFIG = {
         "name": "eval", "pkg": "./ledger/eval/", "run": "^TestVerifC22Eval$",
         "files": ["ledger/eval/zz_verif_c22_test.go"],
         "util": [("ledger/eval", "eval")],
-        "env": {"quick": {"VERIF_C22_EVAL_N": 120, "VERIF_C22_EVAL_OPS": 35},
+        "env": {"quick": {"VERIF_C22_EVAL_N": 200, "VERIF_C22_EVAL_OPS": 35},
                 "thorough": {"VERIF_C22_EVAL_N": 4000, "VERIF_C22_EVAL_OPS": 50},
                 "search": {"VERIF_C22_EVAL_N": 600, "VERIF_C22_EVAL_OPS": 40}},
         "search_tier": "search",
@@ -28,7 +28,11 @@ CONFIG = {
             "apply: the real AssetConfig / AssetTransfer / AssetFreeze over a Balances implementation holding exactly what roundCowState holds "
             "(counters, holdings, params in the creator's account, creatable index), writes of a failed transaction rolled back; "
             "eval: the same transactions through a real BlockEvaluator.TransactionGroup (child cow, commit or discard), asset state read back through the "
-            "evaluator's roundCowState after every transaction, the finished block re-evaluated by eval.Eval. Observed after EVERY transaction: error class "
+            "evaluator's roundCowState after every transaction, the finished block re-evaluated by eval.Eval; about 45% of the eval steps are GROUPS of 2..4 "
+            "transactions on one asset mixing holding changes (transfers to / from the creator, clawback, freeze, opt-in, close-out) with reconfigurations and "
+            "destroy attempts in random order (one child cow for the group on top of the block's cow; committed or discarded as a whole), observed after the group "
+            "(error class + index of the failing member, or the ApplyData values) and judged by spec_group (supply + all-or-nothing); at the end a second "
+            "evaluator replays every committed group and its state is observed and judged as well. Observed after EVERY transaction: error class "
             "(22 classes, one per error return of asset.go), ApplyData.ConfigAsset / AssetClosingAmount, all holdings, all parameters, the creatable index, "
             "TotalAssets / TotalAssetParams of every account. spec_step (independent of the transcription of asset.go) is evaluated on consecutive observed "
             "worlds. A history is non-trivial when at least 3 transfers moving units / close-outs / clawbacks / freezes / reconfigurations / destroys commit; "
